@@ -25,7 +25,9 @@ func genC20(r *Rng, e *Emitter, n int) {
 			}
 		}
 		grid := []int{3, 6, 20, 1000}[r.Intn(4)]
-		shape := r.Intn(6)
+		shape := r.Intn(7)
+		bigX, bigY := 50000000+r.Intn(100000000), 50000000+r.Intn(100000000)
+		stepX, stepY := r.Intn(200001)-100000, r.Intn(200001)-100000
 		flat := make([]float64, 0, size*stride)
 		px, py := r.Intn(grid), r.Intn(grid)
 		for k := 0; k < size; k++ {
@@ -44,6 +46,11 @@ func genC20(r *Rng, e *Emitter, n int) {
 				}
 			case 2: // horizontal with noise
 				x, y = 3*k, r.Intn(3)
+			case 6: // far from the origin, along one long chord, every point a few units off it
+				x, y = bigX+k*stepX+r.Intn(13)-6, bigY+k*stepY+r.Intn(13)-6
+				if x == bigX+k*stepX && y == bigY+k*stepY {
+					x++
+				}
 			case 5: // unit sawtooth: with a threshold below the tooth height the split tree is one long chain
 				x, y = k, k%2
 				if size > 60 && r.chance(1, 2) {
@@ -61,7 +68,9 @@ func genC20(r *Rng, e *Emitter, n int) {
 		}
 		thrChoices := []float64{0, 0, 0.5, 1, 1.5, 2, math.Sqrt2, 3, 4, 10, float64(grid)}
 		thr := thrChoices[r.Intn(len(thrChoices))]
-		if r.chance(1, 8) {
+		if shape == 6 {
+			thr = []float64{0, 0.5, 2, 4, 8}[r.Intn(5)]
+		} else if r.chance(1, 8) {
 			thr = r.Float64() * float64(grid)
 		}
 		e.tally(fmt.Sprintf("stride=%d", stride))
